@@ -41,6 +41,7 @@ inductive MOp (α : Type) where
   | copyAssign (c o : Nat)                   -- c = o (operator= / assign (const small_vector&)): equal, non-propagating or propagating allocators
   | swap (c o : Nat)                         -- c.swap (o), same type, any allocator relation (every path)
   | ctorMove (c o : Nat)                     -- small_vector (std::move (o)), any pair of inline capacities
+  | ctorMoveAlloc (c o a : Nat)              -- small_vector (std::move (o), a)
   | moveAssign (c o : Nat)                   -- c = std::move (o), any pair of inline capacities, any allocator relation
 
 structure St (α : Type) where
@@ -56,7 +57,7 @@ def MOp.valid (cfg : Cfg) (U : List Nat) (s : St α) : MOp α → Prop
       ((s.w.hdr o).alloc = (s.w.hdr c).alloc ∨ cfg.pocca = false ∨ copyAssignPropagating cfg.policy = true)
   | .swap c o => c ∈ s.A ∧ o ∈ s.A ∧ c ≠ o ∧ (s.w.hdr c).N = (s.w.hdr o).N ∧
       ((s.w.hdr c).N = 0 → (s.w.hdr c).inl = (s.w.hdr o).inl) ∧ (allocationsAreSwappable cfg.policy = true → SwapAllocOK cfg s.w c o)
-  | .ctorMove c o => c ∈ U ∧ c ∉ s.A ∧ o ∈ s.A ∧ ((s.w.hdr c).N = 0 → (s.w.hdr o).N = 0 → (s.w.hdr c).inl = (s.w.hdr o).inl)
+  | .ctorMove c o | .ctorMoveAlloc c o _ => c ∈ U ∧ c ∉ s.A ∧ o ∈ s.A ∧ ((s.w.hdr c).N = 0 → (s.w.hdr o).N = 0 → (s.w.hdr c).inl = (s.w.hdr o).inl)
   | .moveAssign c o => c ∈ s.A ∧ o ∈ s.A ∧ c ≠ o ∧ ((s.w.hdr c).N = 0 → (s.w.hdr o).N = 0 → (s.w.hdr c).inl = (s.w.hdr o).inl) ∧
       (allocationsAreMovable cfg.policy = true → cfg.policy.pocma = true ∨ (s.w.hdr c).alloc = (s.w.hdr o).alloc)
 
@@ -68,6 +69,7 @@ def MOp.run (cfg : Cfg) (w : World α) : MOp α → M α Unit
   | .copyAssign c o => SvModel.copyAssign cfg c o
   | .swap c o => SvModel.swap cfg c o
   | .ctorMove c o => SvModel.ctorMove cfg c o
+  | .ctorMoveAlloc c o a => SvModel.ctorMoveAlloc cfg c o a
   | .moveAssign c o => SvModel.moveAssign cfg c o
 
 /-- one call: install the fault list, run; a constructor that returns adds its container, a destructor removes it -/
@@ -76,7 +78,7 @@ def step (cfg : Cfg) (s : St α) (x : MOp α × List Nat) : St α :=
   match x.1.run cfg w0 w0 with
   | .ok _ w' =>
       { w := w', A := match x.1 with
-                     | .ctorVals c _ _ | .ctorCopy c _ _ | .ctorMove c _ => c :: s.A
+                     | .ctorVals c _ _ | .ctorCopy c _ _ | .ctorMove c _ | .ctorMoveAlloc c _ _ => c :: s.A
                      | .dtor c => s.A.filter (· ≠ c)
                      | .on _ _ | .copyAssign _ _ | .swap _ _ | .moveAssign _ _ => s.A }
   | .thrown _ w' => { w := w', A := s.A }
@@ -209,6 +211,13 @@ theorem step_sys (cfg : Cfg) (U : List Nat) (hpol : StrongPolicy cfg) (s : St α
     cases hr : SvModel.ctorMove cfg c o w0 with
     | ok r w' => rw [hr] at h; simp only [MOp.run, hr]; exact h.1
     | thrown e w' => rw [hr] at h; simp only [MOp.run, hr]; exact h.1
+  | ctorMoveAlloc c o a =>
+    obtain ⟨hcU, hcA, ho, hnull⟩ := hv
+    rw [← hh0] at hnull
+    have h := SysAll.ctorMoveAlloc hs0 hcU hcA ho a hnull
+    cases hr : SvModel.ctorMoveAlloc cfg c o a w0 with
+    | ok r w' => rw [hr] at h; simp only [MOp.run, hr]; exact h.1
+    | thrown e w' => rw [hr] at h; simp only [MOp.run, hr]; exact h.1
   | moveAssign c o =>
     obtain ⟨hc, ho, hco, hnull, hal⟩ := hv
     rw [← hh0] at hnull hal
@@ -257,12 +266,12 @@ def Tracks (s : St α) (σ : Nat → List (Val α)) : Prop := ∀ c ∈ s.A, Hol
 /-- the containers a call writes to -/
 def MOp.targets : MOp α → List Nat
   | .ctorVals c _ _ | .ctorCopy c _ _ | .dtor c | .on c _ | .copyAssign c _ => [c]
-  | .swap c o | .ctorMove c o | .moveAssign c o => [c, o]
+  | .swap c o | .ctorMove c o | .ctorMoveAlloc c o _ | .moveAssign c o => [c, o]
 
 /-- the containers whose contents after a returning call the standard leaves unspecified ("valid but unspecified"):
     the source of an element-wise move -/
 def MOp.unspecified : MOp α → List Nat
-  | .ctorMove _ o | .moveAssign _ o => [o]
+  | .ctorMove _ o | .ctorMoveAlloc _ o _ | .moveAssign _ o => [o]
   | _ => []
 
 /-- what std::vector does, for a call that returns -/
@@ -273,7 +282,7 @@ def MOp.spec (σ : Nat → List (Val α)) : MOp α → Nat → List (Val α)
   | .on c op => upd σ c (op.spec (σ c))
   | .copyAssign c o => upd σ c (σ o)
   | .swap c o => upd (upd σ c (σ o)) o (σ c)
-  | .ctorMove c o | .moveAssign c o => upd σ c (σ o)          -- the source: see `MOp.unspecified`
+  | .ctorMove c o | .ctorMoveAlloc c o _ | .moveAssign c o => upd σ c (σ o)          -- the source: see `MOp.unspecified`
 
 /-- did the call return? -/
 def returned (cfg : Cfg) (s : St α) (x : MOp α × List Nat) : Bool :=
@@ -435,6 +444,34 @@ theorem step_tracks (cfg : Cfg) (U : List Nat) (hpol : StrongPolicy cfg) (s : St
     rw [← hh0] at hnull
     have h := SysAll.ctorMove hs0 hcU hcA ho hnull
     cases hr : SvModel.ctorMove cfg c o w0 with
+    | ok r w' =>
+      rw [hr] at h; simp only [MOp.run, hr]
+      obtain ⟨_, hc', ⟨ys, hy⟩, hoth⟩ := h
+      refine ⟨fun _ => ⟨upd (upd σ c (σ o)) o ys, fun d hd => ?_, fun d hd => ?_⟩, fun h' => by cases h'⟩
+      · have : d ≠ o := by simpa [MOp.unspecified] using hd
+        simp only [MOp.spec]; rw [upd_other _ _ _ _ this]
+      · by_cases hdo : d = o
+        · rw [hdo, upd_same]; exact hy
+        · rw [upd_other _ _ _ _ hdo]
+          rcases List.mem_cons.mp hd with hdc | hd'
+          · rw [hdc, upd_same]; exact hc' _ (ht0 o ho)
+          · have hdc : d ≠ c := fun e => hcA (e ▸ hd')
+            rw [upd_other _ _ _ _ hdc]; exact hoth d hd' hdo _ (ht0 d hd')
+    | thrown e w' =>
+      rw [hr] at h; simp only [MOp.run, hr]
+      obtain ⟨_, _, ⟨ys, hy⟩, hoth⟩ := h
+      refine ⟨(fun h' => by cases h'), fun _ => ⟨upd σ o ys, fun d hd => ?_, fun d hd => ?_⟩⟩
+      · by_cases hdo : d = o
+        · rw [hdo, upd_same]; exact hy
+        · rw [upd_other _ _ _ _ hdo]; exact hoth d hd hdo _ (ht0 d hd)
+      · have : d ≠ c ∧ d ≠ o := by simpa [MOp.targets] using hd
+        rw [upd_other _ _ _ _ this.2]
+  | ctorMoveAlloc c o a =>
+    obtain ⟨hcU, hcA, ho, hnull⟩ := hv
+    have hco : c ≠ o := fun e => hcA (e ▸ ho)
+    rw [← hh0] at hnull
+    have h := SysAll.ctorMoveAlloc hs0 hcU hcA ho a hnull
+    cases hr : SvModel.ctorMoveAlloc cfg c o a w0 with
     | ok r w' =>
       rw [hr] at h; simp only [MOp.run, hr]
       obtain ⟨_, hc', ⟨ys, hy⟩, hoth⟩ := h
@@ -719,5 +756,22 @@ example : let s2 := run Ex.cfgT ⟨initWorld 2 3, []⟩ (exSU.take 2)
     (s5.w.mem (s5.w.hdr 0).data).take (s5.w.hdr 0).size = [.obj (.val 1), .obj (.val 2)] ∧
     (s6.w.hdr 0).alloc = 1 ∧ s6.w.owner (s6.w.hdr 0).data = 1 ∧ (s6.w.hdr 0).size = 5 ∧
     (s6.w.mem (s6.w.hdr 1).data).take (s6.w.hdr 1).size = [.obj (.val 1), .obj (.val 2)] := by decide +kernel
+
+/-- non-vacuity for the allocator-extended move constructor: equal allocator (the heap buffer is stolen), unequal allocator
+    (a heap source is NOT stolen: elements are moved one by one into a block of the supplied allocator; first with a throw
+    after one element: block given back, the source keeps five constructed elements) -/
+def exMCA : List (MOp Int × List Nat) :=
+  [(.ctorVals 0 1 [1, 2, 3, 4], []), (.ctorMoveAlloc 2 0 1, []), (.ctorVals 1 2 [5, 6, 7, 8, 9], []), (.ctorMoveAlloc 3 1 7, [2]), (.ctorMoveAlloc 3 1 7, []),
+   (.dtor 0, []), (.dtor 1, []), (.dtor 2, []), (.dtor 3, [])]
+
+example : ctorMoveAllocDelegates Ex.cfgT.policy = false ∧
+    (run Ex.cfgT ⟨initWorld 2 3, []⟩ exMCA).A = [] ∧ (run Ex.cfgT ⟨initWorld 2 3, []⟩ exMCA).w.live = [] ∧ (run Ex.cfgT ⟨initWorld 2 3, []⟩ exMCA).w.ub = [] := by decide +kernel
+example : let s1 := run Ex.cfgT ⟨initWorld 2 3, []⟩ (exMCA.take 1)
+    let s2 := run Ex.cfgT ⟨initWorld 2 3, []⟩ (exMCA.take 2)
+    let s4 := run Ex.cfgT ⟨initWorld 2 3, []⟩ (exMCA.take 4)
+    let s5 := run Ex.cfgT ⟨initWorld 2 3, []⟩ (exMCA.take 5)
+    (s2.w.hdr 2).data = (s1.w.hdr 0).data ∧ (s2.w.hdr 2).alloc = 1 ∧ (s2.w.hdr 0).size = 0 ∧
+    returned Ex.cfgT (run Ex.cfgT ⟨initWorld 2 3, []⟩ (exMCA.take 3)) (.ctorMoveAlloc 3 1 7, [2]) = false ∧ s4.A = [1, 2, 0] ∧ s4.w.live.length = 2 ∧
+    (s5.w.hdr 3).alloc = 7 ∧ s5.w.owner (s5.w.hdr 3).data = 7 ∧ (s5.w.hdr 3).data ≠ (s4.w.hdr 1).data ∧ (s5.w.hdr 1).size = 5 := by decide +kernel
 
 end SvModel.System
